@@ -8,6 +8,7 @@ use crate::rng::{hash_str, Rng};
 use crate::specwalk::{SpecWalk, ALL_VERSIONS};
 use crate::walk::*;
 use autosar_data::*;
+use autosar_data_specification::CharacterDataSpec;
 use autosar_data_specification::{ContentMode, ElementMultiplicity, ElementType};
 
 pub struct OrderVerdict {
@@ -89,7 +90,57 @@ pub fn children_conform(parent: &Element, version: AutosarVersion) -> Result<(),
             } else if g == ContentMode::Choice {
                 return Err(("exclusive-choice", format!("{na} and {nb} are alternatives of an exclusive choice in {}", parent.element_name())));
             } else if g == ContentMode::Sequence && a > b {
+                // the same pair looked up without a version (the position in "any" version, which is what sort() compares)
+                let any = |n: ElementName| ptype.find_sub_element(n, u32::MAX).map(|(_, i)| i);
+                if let (Some(xa), Some(xb)) = (any(*na), any(*nb)) {
+                    if xa < xb {
+                        return Err(("order-by-positions-of-other-versions", format!("{na} is listed before {nb} in {}: in {version:?} the specification has them the other way round, a lookup without version has them this way", parent.element_name())));
+                    }
+                }
                 return Err(("order", format!("{na} is listed before {nb} in {}, the specification has them the other way round", parent.element_name())));
+            }
+        }
+    }
+    Ok(())
+}
+
+/// independent check of one value against its value space (length limits, pattern, enum item valid in the version, kind)
+fn value_class(cd: &CharacterData, spec: &CharacterDataSpec, version: AutosarVersion) -> Option<&'static str> {
+    match (spec, cd) {
+        (CharacterDataSpec::Enum { items }, CharacterData::Enum(item)) => match items.iter().find(|(i, _)| i == item) {
+            None => Some("enum-item-not-listed"),
+            Some((_, mask)) if mask & version as u32 == 0 => Some("enum-item-not-in-version"),
+            _ => None,
+        },
+        (CharacterDataSpec::Pattern { check_fn, max_length, .. }, CharacterData::String(s)) => {
+            if max_length.is_some_and(|m| s.len() > m) {
+                Some("too-long")
+            } else if !check_fn(s.as_bytes()) {
+                Some("pattern-mismatch")
+            } else {
+                None
+            }
+        }
+        (CharacterDataSpec::String { max_length, .. }, CharacterData::String(s)) => max_length.is_some_and(|m| s.len() > m).then_some("too-long"),
+        (CharacterDataSpec::UnsignedInteger, CharacterData::UnsignedInteger(_)) | (CharacterDataSpec::Float, CharacterData::Float(_)) => None,
+        _ => Some("wrong-kind"),
+    }
+}
+
+/// character data and attribute values of one element are inside their value spaces
+pub fn values_conform(e: &Element, version: AutosarVersion) -> Result<(), (&'static str, String)> {
+    let et = e.element_type();
+    if let (Some(spec), Some(cd)) = (et.chardata_spec(), e.character_data()) {
+        if e.content_type() == ContentType::CharacterData {
+            if let Some(class) = value_class(&cd, spec, version) {
+                return Err((class, format!("character data {:?}", crate::monitors::clip(&cd.to_string()))));
+            }
+        }
+    }
+    for attr in e.attributes() {
+        if let Some(aspec) = et.find_attribute_spec(attr.attrname) {
+            if let Some(class) = value_class(&attr.content, aspec.spec, version) {
+                return Err((class, format!("attribute {} = {:?}", attr.attrname, crate::monitors::clip(&attr.content.to_string()))));
             }
         }
     }
@@ -311,6 +362,13 @@ pub fn run(rep: &mut Report, tier: &str) {
                     Op::Copy { src, .. } | Op::CopyAt { src, .. } | Op::Move { src, .. } | Op::MoveAt { src, .. } => w.home(&w.elems[*src]),
                     _ => None,
                 };
+                let move_kind = match &op {
+                    Op::Move { p, src } | Op::MoveAt { p, src, .. } => match w.elems[*src].parent() {
+                        Ok(Some(sp)) if sp == w.elems[*p] => ":within-one-parent",
+                        _ => ":from-another-parent",
+                    },
+                    _ => "",
+                };
                 let out = w.exec(&op);
                 w.refresh();
                 w.log.push(format!("{step:3} {text} -> {}", out.short()));
@@ -338,13 +396,19 @@ pub fn run(rep: &mut Report, tier: &str) {
                             viol(sub, "built/identifiable-without-short-name", &format!("{}:after={:?}", if cross { "copied-from-another-version" } else { "same-version" }, op.kind()), format!("{} has no SHORT-NAME although its type is identifiable in {version:?}", n.elem.xml_path()), &log, case, seed);
                             break;
                         }
+                        if let Err((class, why)) = values_conform(&n.elem, version) {
+                            conforming = false;
+                            let log = w.log.clone();
+                            viol(sub, "built/value-outside-value-space", &format!("{class}:after={:?}", op.kind()), format!("in {}: {why}", n.elem.xml_path()), &log, case, seed);
+                            break;
+                        }
                         if let Err((class, why)) = children_conform(&n.elem, version) {
                             if class == "not-in-version" {
                                 continue;
                             }
                             conforming = false;
                             let log = w.log.clone();
-                            viol(sub, "built/children-do-not-conform", &format!("{class}:after={:?}", op.kind()), format!("in {}: {why}", n.elem.xml_path()), &log, case, seed);
+                            viol(sub, "built/children-do-not-conform", &format!("{class}{move_kind}:after={:?}", op.kind()), format!("in {}: {why}", n.elem.xml_path()), &log, case, seed);
                             break;
                         }
                     }
